@@ -37,7 +37,8 @@ func payloadOfV4(p *dhcpv4.DHCPv4) byte {
 func routeScenario(v6 bool, xids, ths []byte, evs [][]byte) []callOutcome {
 	n := len(xids)
 	outs := make([]callOutcome, n)
-	synctest.Test(syncT, func(t *testing.T) {
+	bubbleNote = (Case{map[bool]int{false: eRouteV4, true: eRouteV6}[v6], append([][]byte{xids, ths}, evs...)}).Line()
+	runBubble(func(t *testing.T) {
 		conn := newLabConn()
 		var c4 *nclient4.Client
 		var c6 *nclient6.Client
@@ -364,7 +365,8 @@ func checkRouting(r *Run, entry int, xids, ths []byte, evs [][]byte, outs []call
 // datagrams with its id arrive (five fill the per-transaction buffer, one more waits in the receive loop);
 // then the matcher is released.  Returns the payloads the matcher saw, in order, and the call's outcome.
 func heldMatcherScenario(v6 bool, payloads []byte, acceptFrom int) (seen []byte, out callOutcome) {
-	synctest.Test(syncT, func(t *testing.T) {
+	bubbleNote = fmt.Sprintf("v6=%v: matcher held on the first of %d datagrams, acceptable from position %d", v6, len(payloads), acceptFrom)
+	runBubble(func(t *testing.T) {
 		conn := newLabConn()
 		gate := make(chan struct{})
 		first := true
@@ -473,7 +475,8 @@ func checkHeldMatcher(r *Run, v6 bool, n, acceptFrom int) {
 // collidingCallers: n calls with the same transaction id start at the same moment on one client.
 // Exactly one may be admitted (it stays waiting); every other one must be refused.
 func collidingCallers(v6 bool, n int) (waiting, refused, other int) {
-	synctest.Test(syncT, func(t *testing.T) {
+	bubbleNote = fmt.Sprintf("v6=%v: %d simultaneous calls with one transaction id", v6, n)
+	runBubble(func(t *testing.T) {
 		conn := newLabConn()
 		var c4 *nclient4.Client
 		var c6 *nclient6.Client
